@@ -1,20 +1,23 @@
 #!/bin/bash
-# re-applies every archived seeded change to /repo, runs the check that is recorded as catching it
-# (quick tier, seed from VERIF_SEED or 1) and restores /repo.  Prints one line per seed.
+# Re-applies every archived seeded change and runs the check that is recorded as catching it (quick tier,
+# seed from VERIF_SEED or 1).  Prints one line per seed.  /repo itself is not touched: the work is
+# spread over N scratch worktrees of /repo's HEAD under /tmp (removed afterwards), each with a frozen
+# copy of the harness whose go.mod points at that worktree.
+# usage: tools_seed_regress.sh [name-regex] [workers=6]
 cd "$(dirname "$(readlink -f "$0")")" || exit 2
-[ -n "$(git -C /repo status --porcelain)" ] && { echo "repo dirty"; exit 2; }
+pat="${1:-.}"; n="${2:-6}"
 export VERIF_EVIDENCE_DIR="$PWD/.build/mutant-evidence"
-# the run takes about an hour: work on a frozen copy of the harness so that edits made meanwhile do not matter
-snap=$(mktemp -d /tmp/verif-harness-snap.XXXXXX)
-cp -r harness/. "$snap"/
-export VERIF_HARNESS_DIR="$snap"
-trap 'rm -rf "$snap"' EXIT
-miss=0
-for d in seeded/*/; do
-  name=$(basename "$d")
-  # optional filter: only the seeds whose name matches $1 (a grep -E pattern)
-  if [ -n "${1:-}" ] && ! echo "$name" | grep -qE "$1"; then continue; fi
-  chk=$(python3 - "$d/meta.json" <<'PY'
+root=$(mktemp -d /tmp/verif-regress.XXXXXX)
+trap 'for k in $(seq 1 $n); do git -C /repo worktree remove --force "$root/wt$k" 2>/dev/null; done; git -C /repo worktree prune; rm -rf "$root"' EXIT
+seeds=$(ls seeded | grep -E "$pat")
+worker() {
+  k=$1; wt="$root/wt$k"; hs="$root/h$k"
+  git -C /repo worktree add --detach "$wt" HEAD >/dev/null 2>&1 || { echo "worker $k: cannot create worktree"; return; }
+  mkdir -p "$hs"; cp -r harness/. "$hs"/; sed -i "s|=> /repo|=> $wt|" "$hs/go.mod"
+  i=0
+  for name in $seeds; do
+    i=$((i+1)); [ $((i % n)) -eq $((k % n)) ] || continue
+    chk=$(python3 - "seeded/$name/meta.json" <<'PY'
 import json,re,sys
 m=json.load(open(sys.argv[1]))
 # the last "vcheck Cxx quick" segment of the note that ends in a VIOLATION verdict
@@ -23,10 +26,13 @@ hits=[re.match(r'vcheck (C\d\d) quick', s).group(1) for s in segs if s.startswit
 print(hits[-1] if hits else "")
 PY
 )
-  if [ -z "$chk" ]; then echo "$name: no catching check recorded (out of scope / duplicate)"; continue; fi
-  git -C /repo apply "$PWD/$d/patch.diff" 2>/dev/null || { echo "$name: PATCH DOES NOT APPLY"; miss=$((miss+1)); continue; }
-  out=$(./vcheck "$chk" quick 2>&1 | grep -E "^(VIOLATION|OK|INCONCLUSIVE|BUILD-FAILED)" | head -1)
-  git -C /repo checkout -- .
-  case "$out" in VIOLATION*) echo "$name: $chk ${out%% replay=*}";; *) echo "$name: $chk NOT REPORTED -> $out"; miss=$((miss+1));; esac
-done
-echo "seeds not reported: $miss"
+    if [ -z "$chk" ]; then echo "$name: no catching check recorded (out of scope / duplicate)"; continue; fi
+    git -C "$wt" apply "$PWD/seeded/$name/patch.diff" 2>/dev/null || { echo "$name: PATCH DOES NOT APPLY"; continue; }
+    out=$(VERIF_REPO_DIR="$wt" VERIF_HARNESS_DIR="$hs" ./vcheck "$chk" quick 2>&1 | grep -E "^(VIOLATION|OK|INCONCLUSIVE|BUILD-FAILED)" | head -1)
+    git -C "$wt" checkout -- . ; git -C "$wt" clean -fdq
+    case "$out" in VIOLATION*) echo "$name: $chk ${out%% replay=*}";; *) echo "$name: $chk NOT REPORTED -> $out";; esac
+  done
+}
+for k in $(seq 1 $n); do worker $k & done
+wait
+echo "regress done"
